@@ -381,7 +381,7 @@ def gen_history(rng, pubkind, malformed=False, last_terms=False, geom=None, nops
     def do_poll(lim=None):
         before = t.sp
         r = emit(['p', pick_poll_limit(rng) if lim is None else lim])
-        if t.sp != before and rng.random() < 0.6 and not t.closed:
+        if t.sp != before and rng.random() < 0.5 and not t.closed:
             emit(['l', pick_limit(rng, t, lastlen)])       # the driver moves the window after the subscriber
         return r
 
@@ -443,7 +443,7 @@ def gen_history(rng, pubkind, malformed=False, last_terms=False, geom=None, nops
             emit(['p', rng.choice([0, -1, MINI, MAXI])])
 
     # most histories open the window and connect first
-    if rng.random() < 0.9:
+    if rng.random() < 0.95:
         emit(['l', t.sp + tlen if rng.random() < 0.75 else pick_limit(rng, t)])
     if rng.random() < 0.7:
         emit(['n', 1])
@@ -451,7 +451,7 @@ def gen_history(rng, pubkind, malformed=False, last_terms=False, geom=None, nops
     while len(ops) < nops:
         if rng.random() < 0.07:
             phase = rng.choice(['lag', 'drain', 'mixed'])
-        ppoll = {'lag': 0.06, 'drain': 0.5, 'mixed': 0.25}[phase]
+        ppoll = {'lag': 0.05, 'drain': 0.42, 'mixed': 0.2}[phase]
         if malformed and rng.random() < 0.15:
             inject()
             continue
@@ -475,9 +475,9 @@ def gen_history(rng, pubkind, malformed=False, last_terms=False, geom=None, nops
             do_poll()
             continue
         r2 = rng.random()
-        if r2 < 0.52:
+        if r2 < 0.56:
             do_append(False)
-        elif r2 < 0.70:
+        elif r2 < 0.75:
             do_append(True)
         elif r2 < 0.86:
             emit(['l', pick_limit(rng, t, lastlen)])
